@@ -118,7 +118,10 @@ static void blkrb(void) {
     fputc(' ', stdout);
   }
   fputs("A=", stdout);
-  for (unsigned t = 0; t <= mx + 3; t++) fputc(check_all_blocks_in(&rb, t) ? '1' : '0', stdout);
+  /* totals 0..min(mx+3, 40) and, for large block numbers, mx-1..mx+3 */
+  for (unsigned t = 0; t <= mx + 3 && t <= 40; t++) fputc(check_all_blocks_in(&rb, t) ? '1' : '0', stdout);
+  if (mx + 3 > 40)
+    for (unsigned t = mx - 1; t <= mx + 3; t++) fputc(check_all_blocks_in(&rb, t) ? '1' : '0', stdout);
   fputc('\n', stdout);
 }
 
